@@ -4,7 +4,12 @@
  *                                 memory available, tear everything down.
  *     -> fault=<fired 0|1> allocs=<requests during the faulted operation> op=<ok|errclass|null> retry=<ok|FAIL:...|skip> log=<event log>
  *   list                        : the scenario names
- * Event log (whole life of the scenario, in allocator order): a<addr>:<size>  f<addr>  x<size> (request answered NULL).
+ * Event log (whole life of the scenario, in allocator order): a<addr>:<size>  f<addr>  x<size> (request answered NULL),
+ *   o<addr> (the caller declares the block as part of an object it still owns: thread pool / CDict / DDict / prefix buffer that a
+ *   context only references)  d<addr> (the caller starts releasing it).  A free of a declared block before its d is a theft.
+ * own_* scenarios print an extra field probe=<ok|FAIL:...> between op= and retry=: right after the faulted call the caller-owned objects
+ * must be intact (every declared block still live, the pool's threads still there, referenced buffers unchanged) and usable through
+ * a second context.
  * The Lean ledger model (zvdriver ledger) replays the log and decides leaks / double frees / foreign frees.
  * Freed blocks are quarantined until the end of the run (never recycled; poisoned under ASan), so that a second free of the same
  * block is an observable event instead of heap corruption, and a use after free is caught by the sanitizer build.
@@ -28,7 +33,7 @@
 #  define ZV_UNPOISON(p, n) ((void)0)
 #endif
 
-typedef struct { void* p; size_t sz; int live; } rec_t;
+typedef struct { void* p; size_t sz; int live; int owned; } rec_t;
 static rec_t* g_recs; static size_t g_nrecs, g_caprecs;
 static char* g_log; static size_t g_loglen, g_logcap;
 static long g_failAt = -1, g_failAt2 = -1, g_calls; static int g_counting, g_fired;
@@ -45,7 +50,7 @@ void* zv_fault_alloc(size_t size) {
     if (g_counting) { g_calls++; if (g_calls == g_failAt || g_calls == g_failAt2) { g_fired++; logf_("x%llu ", size, 0); pthread_mutex_unlock(&g_mx); return NULL; } }
     p = malloc(size ? size : 1);
     if (p) { if (g_nrecs == g_caprecs) { g_caprecs = g_caprecs ? g_caprecs * 2 : 256; g_recs = (rec_t*)realloc(g_recs, g_caprecs * sizeof *g_recs); }
-        g_recs[g_nrecs].p = p; g_recs[g_nrecs].sz = size; g_recs[g_nrecs].live = 1; g_nrecs++;
+        g_recs[g_nrecs].p = p; g_recs[g_nrecs].sz = size; g_recs[g_nrecs].live = 1; g_recs[g_nrecs].owned = 0; g_nrecs++;
         logf_("a%llx:%llu ", (unsigned long long)(size_t)p, size); }
     pthread_mutex_unlock(&g_mx);
     return p;
@@ -62,6 +67,12 @@ void* zv_fault_calloc(size_t a, size_t b) { void* p = zv_fault_alloc(a * b); if 
 static void* cm_alloc(void* o, size_t n) { (void)o; return zv_fault_alloc(n); }
 static void cm_free(void* o, void* p) { (void)o; zv_fault_free(p); }
 static ZSTD_customMem const CM = { cm_alloc, cm_free, NULL };
+/* objects the caller still owns: created (single-threaded) between own_begin and own_end, declared in the log, released after disown_all */
+static size_t g_ownFrom;
+static void own_begin(void) { pthread_mutex_lock(&g_mx); g_ownFrom = g_nrecs; pthread_mutex_unlock(&g_mx); }
+static void own_end(void) { size_t i; pthread_mutex_lock(&g_mx); for (i = g_ownFrom; i < g_nrecs; i++) if (g_recs[i].live) { g_recs[i].owned = 1; logf_("o%llx ", (unsigned long long)(size_t)g_recs[i].p, 0); } pthread_mutex_unlock(&g_mx); }
+static int owned_intact(void) { size_t i; int ok = 1; pthread_mutex_lock(&g_mx); for (i = 0; i < g_nrecs; i++) if (g_recs[i].owned && !g_recs[i].live) ok = 0; pthread_mutex_unlock(&g_mx); return ok; }
+static void disown_all(void) { size_t i; pthread_mutex_lock(&g_mx); for (i = 0; i < g_nrecs; i++) if (g_recs[i].owned) { g_recs[i].owned = 0; logf_("d%llx ", (unsigned long long)(size_t)g_recs[i].p, 0); } pthread_mutex_unlock(&g_mx); }
 static void ledger_reset(void) { size_t i; for (i = 0; i < g_nrecs; i++) { ZV_UNPOISON(g_recs[i].p, g_recs[i].sz); free(g_recs[i].p); } g_nrecs = 0; g_loglen = 0; if (g_log) g_log[0] = 0; g_calls = 0; g_fired = 0; g_counting = 0; }
 
 /* ---- data ---- */
@@ -83,8 +94,11 @@ static int rt_ok(const unsigned char* src, size_t n, const unsigned char* c, siz
     return !ZSTD_isError(r) && r == n && !memcmp(BACK, src, n); }
 
 /* ---- scenario state ---- */
-typedef struct { ZSTD_CCtx* c; ZSTD_DCtx* d; ZSTD_CDict* cd; ZSTD_DDict* dd; ZSTD_DDict* dds[40]; int ndds; unsigned char* frame; size_t fsz; size_t fsz2; unsigned char* frame2; size_t n2; int plain; } S;
-typedef struct { const char* name; void (*setup)(S*); size_t (*op)(S*, char* why); void (*reset)(S*); } scen_t;
+typedef struct { ZSTD_CCtx* c; ZSTD_DCtx* d; ZSTD_CDict* cd; ZSTD_DDict* dd; ZSTD_DDict* dds[40]; int ndds; unsigned char* frame; size_t fsz; size_t fsz2; unsigned char* frame2; size_t n2; int plain;
+    /* own_* scenarios: a second context sharing the caller's objects, the caller's thread pool, the caller's buffer (referenced, never copied) and a private copy of its content */
+    ZSTD_CCtx* c2; ZSTD_DCtx* d2; ZSTD_threadPool* pool; int poolLedger; int tasks0; unsigned char* obuf; unsigned char* ocopy; size_t osz;
+    unsigned char* mdict[40]; size_t mdictSz[40]; unsigned char* mframe[40]; size_t mfsz[40]; } S;
+typedef struct { const char* name; void (*setup)(S*); size_t (*op)(S*, char* why); void (*reset)(S*); size_t (*probe)(S*, char* why); } scen_t;
 static size_t alt_small(S* s, char* why);   /* after the failed call + reset: a smaller job that fits what the context already held */
 #define NULLRES ((size_t)-1000)     /* constructor returned NULL */
 
@@ -177,6 +191,101 @@ static size_t op_train_legacy(S* s, char* why) { (void)s; return train(2, why); 
 static size_t op_opt_fastcover(S* s, char* why) { (void)s; return train(3, why); }
 static size_t op_opt_cover(S* s, char* why) { (void)s; return train(4, why); }
 
+/* -- objects the caller still owns must survive a failed call (own_*): a thread pool attached with ZSTD_CCtx_refThreadPool and shared by two
+ *    contexts, a CDict / DDict that contexts only reference (also the members of the multi-DDict hash set), the buffer behind refPrefix /
+ *    loadDictionary_byReference / a by-reference CDict or DDict.  The caller creates them between own_begin and own_end (their blocks are
+ *    declared in the log), the faulted call runs on a context that references them, and right afterwards: every declared block is still
+ *    live, the pool's threads are still there, the referenced buffer is unchanged, and a second context can use the objects. -- */
+#include <dirent.h>
+ZSTD_threadPool* POOL_create_advanced(size_t numThreads, size_t queueSize, ZSTD_customMem customMem);   /* lib/common/pool.h : a pool whose blocks come from the ledger's allocator */
+#define GENERIC_ ((size_t)-ZSTD_error_GENERIC)
+static int count_tasks(void) { DIR* d = opendir("/proc/self/task"); struct dirent* e; int n = 0; if (!d) return -1; while ((e = readdir(d))) if (e->d_name[0] != '.') n++; closedir(d); return n; }
+static void own_buf(S* s) { s->osz = DICTSZ; s->obuf = (unsigned char*)zv_fault_alloc(DICTSZ); memcpy(s->obuf, DICT, DICTSZ); s->ocopy = (unsigned char*)malloc(DICTSZ); memcpy(s->ocopy, DICT, DICTSZ); }
+static size_t buf_same(S* s, char* why) { if (s->obuf && memcmp(s->obuf, s->ocopy, s->osz)) { strcpy(why, "caller-buffer-modified"); return GENERIC_; } return 0; }
+/* shared thread pool */
+static size_t probe_pool(S* s, char* why) { size_t r; int const t = count_tasks();
+    if (s->tasks0 > 0 && t != s->tasks0) { sprintf(why, "pool-threads:%d->%d", s->tasks0, t); return GENERIC_; }
+    ZSTD_CCtx_reset(s->c2, ZSTD_reset_session_and_parameters); r = ZSTD_CCtx_refThreadPool(s->c2, s->pool); if (ZSTD_isError(r)) return r;
+    set(s->c2, ZSTD_c_nbWorkers, 1); set(s->c2, ZSTD_c_compressionLevel, 1);
+    r = ZSTD_compress2(s->c2, DST, DSTCAP, SRC + 4096, 700000); if (ZSTD_isError(r)) return r;
+    if (!rt_ok(SRC + 4096, 700000, DST, r, NULL, 0)) { strcpy(why, "second-context-on-shared-pool:round-trip"); return GENERIC_; }
+    return 0; }
+static void su_own_pool_(S* s, int threads, int ledger, int warm) { char why[64];
+    own_begin(); s->poolLedger = ledger; s->pool = ledger ? POOL_create_advanced((size_t)threads, 0, CM) : ZSTD_createThreadPool((size_t)threads); own_end();
+    s->c = ZSTD_createCCtx_advanced(CM); s->c2 = ZSTD_createCCtx_advanced(CM);
+    s->tasks0 = 0; probe_pool(s, why);                       /* the second context really shares the pool: it has compressed with it */
+    if (warm) { ZSTD_CCtx_refThreadPool(s->c, s->pool); op_mt(s, why, 2, 0, 524288, 1200000, 0); ZSTD_CCtx_reset(s->c, ZSTD_reset_session_only); }
+    s->tasks0 = count_tasks(); }
+static void su_own_pool(S* s) { su_own_pool_(s, 2, 1, 0); }
+static void su_own_pool_public(S* s) { su_own_pool_(s, 3, 0, 0); }
+static void su_own_pool_warm(S* s) { su_own_pool_(s, 4, 1, 1); }
+static size_t op_own_pool(S* s, char* why, int workers, int ldm, int jobSize, size_t n, int stream) { size_t r; if (!s->c || !s->pool) return NULLRES;
+    r = ZSTD_CCtx_refThreadPool(s->c, s->pool); if (ZSTD_isError(r)) return r; return op_mt(s, why, workers, ldm, jobSize, n, stream); }
+static size_t op_own_pool_mt(S* s, char* why) { return op_own_pool(s, why, 2, 0, 0, 1500000, 0); }
+static size_t op_own_pool_mt_public(S* s, char* why) { return op_own_pool(s, why, 3, 1, 524288, 2000000, 1); }
+static size_t op_own_pool_mt_more_workers(S* s, char* why) { return op_own_pool(s, why, 4, 0, 524288, 2500000, 1); }   /* existing mtctx on the caller's pool: pools / job table resized */
+/* referenced CDict (by reference on the caller's buffer) */
+static void su_own_cdict_(S* s, int warm) { own_begin(); own_buf(s); s->cd = ZSTD_createCDict_advanced(s->obuf, s->osz, ZSTD_dlm_byRef, ZSTD_dct_auto, ZSTD_getCParams(3, 0, DICTSZ), CM); own_end();
+    if (warm) su_cctx_warm(s); else su_cctx(s); s->c2 = ZSTD_createCCtx_advanced(CM); }
+static void su_own_cdict(S* s) { su_own_cdict_(s, 0); }
+static void su_own_cdict_warm(S* s) { su_own_cdict_(s, 1); }
+static size_t probe_cdict(S* s, char* why) { size_t r = buf_same(s, why); if (ZSTD_isError(r)) return r;
+    r = ZSTD_compress_usingCDict(s->c2, DST, DSTCAP, SRC + 8192, 80000, s->cd); if (ZSTD_isError(r)) return r;
+    if (!rt_ok(SRC + 8192, 80000, DST, r, DICT, DICTSZ)) { strcpy(why, "second-context-on-referenced-cdict:round-trip"); return GENERIC_; } return 0; }
+static size_t op_own_cdict_mt(S* s, char* why) { size_t r; if (!s->c || !s->cd) return NULLRES; r = ZSTD_CCtx_refCDict(s->c, s->cd); if (ZSTD_isError(r)) return r;
+    r = set(s->c, ZSTD_c_nbWorkers, 1); if (ZSTD_isError(r)) return r; set(s->c, ZSTD_c_checksumFlag, 1); r = ZSTD_compress2(s->c, DST, DSTCAP, SRC, 1200000); return check_c(r, 1200000, DICT, DICTSZ, why); }
+static size_t op_own_cdict_grow(S* s, char* why) { size_t r; if (!s->c || !s->cd) return NULLRES; r = ZSTD_CCtx_refCDict(s->c, s->cd); if (ZSTD_isError(r)) return r;
+    r = ZSTD_compress2(s->c, DST, DSTCAP, SRC, 1000000); return check_c(r, 1000000, DICT, DICTSZ, why); }
+/* referenced prefix / dictionary loaded by reference */
+static void su_own_prefix_(S* s, int warm) { own_begin(); own_buf(s); own_end(); if (warm) su_cctx_warm(s); else su_cctx(s); s->c2 = ZSTD_createCCtx_advanced(CM); }
+static void su_own_prefix(S* s) { su_own_prefix_(s, 0); }
+static void su_own_prefix_warm(S* s) { su_own_prefix_(s, 1); }
+static size_t probe_prefix(S* s, char* why) { size_t r = buf_same(s, why); if (ZSTD_isError(r)) return r;
+    ZSTD_CCtx_reset(s->c2, ZSTD_reset_session_and_parameters); r = ZSTD_CCtx_refPrefix(s->c2, s->obuf, s->osz); if (ZSTD_isError(r)) return r;
+    r = ZSTD_compress2(s->c2, DST, DSTCAP, SRC + 8192, 50000); if (ZSTD_isError(r)) return r;
+    if (!rt_ok(SRC + 8192, 50000, DST, r, DICT, DICTSZ)) { strcpy(why, "second-context-on-referenced-prefix:round-trip"); return GENERIC_; } return 0; }
+static size_t op_own_prefix_mt(S* s, char* why) { size_t r; if (!s->c || !s->obuf) return NULLRES; r = ZSTD_CCtx_refPrefix(s->c, s->obuf, s->osz); if (ZSTD_isError(r)) return r;
+    r = set(s->c, ZSTD_c_nbWorkers, 1); if (ZSTD_isError(r)) return r; set(s->c, ZSTD_c_compressionLevel, 3); r = ZSTD_compress2(s->c, DST, DSTCAP, SRC, 1200000); return check_c(r, 1200000, DICT, DICTSZ, why); }
+static size_t op_own_prefix_grow(S* s, char* why) { size_t r; if (!s->c || !s->obuf) return NULLRES; r = ZSTD_CCtx_refPrefix(s->c, s->obuf, s->osz); if (ZSTD_isError(r)) return r;
+    set(s->c, ZSTD_c_compressionLevel, 6); r = ZSTD_compress2(s->c, DST, DSTCAP, SRC, 1000000); return check_c(r, 1000000, DICT, DICTSZ, why); }
+static size_t op_own_dictref_mt(S* s, char* why) { size_t r; if (!s->c || !s->obuf) return NULLRES; r = ZSTD_CCtx_loadDictionary_byReference(s->c, s->obuf, s->osz); if (ZSTD_isError(r)) return r;
+    r = set(s->c, ZSTD_c_nbWorkers, 2); if (ZSTD_isError(r)) return r; set(s->c, ZSTD_c_compressionLevel, 2); r = ZSTD_compress2(s->c, DST, DSTCAP, SRC, 1500000); return check_c(r, 1500000, DICT, DICTSZ, why); }
+/* referenced DDict (by reference on the caller's buffer), prefix on the decoding side */
+static void su_own_dframe(S* s) { ZSTD_CCtx* c = ZSTD_createCCtx(); size_t r = ZSTD_compress_usingDict(c, DST, DSTCAP, SRC, 90000, DICT, DICTSZ, 3); s->frame = (unsigned char*)malloc(r); memcpy(s->frame, DST, r); s->fsz = r; ZSTD_freeCCtx(c); }
+static void su_own_ddict(S* s) { su_own_dframe(s); own_begin(); own_buf(s); s->dd = ZSTD_createDDict_advanced(s->obuf, s->osz, ZSTD_dlm_byRef, ZSTD_dct_auto, CM); own_end();
+    s->d = ZSTD_createDCtx_advanced(CM); s->d2 = ZSTD_createDCtx_advanced(CM); }
+static void su_own_dprefix(S* s) { su_own_dframe(s); own_begin(); own_buf(s); own_end(); s->d = ZSTD_createDCtx_advanced(CM); s->d2 = ZSTD_createDCtx_advanced(CM); }
+static size_t probe_ddict(S* s, char* why) { size_t r = buf_same(s, why); if (ZSTD_isError(r)) return r;
+    r = s->dd ? ZSTD_decompress_usingDDict(s->d2, BACK, BIG, s->frame, s->fsz, s->dd) : ZSTD_decompress_usingDict(s->d2, BACK, BIG, s->frame, s->fsz, s->obuf, s->osz); if (ZSTD_isError(r)) return r;
+    if (r != 90000 || memcmp(BACK, SRC, 90000)) { strcpy(why, "second-context-on-referenced-dictionary:decoded-bytes"); return GENERIC_; } return 0; }
+static size_t op_own_ddict(S* s, char* why) { size_t out = 0, r; if (!s->d || !s->dd) return NULLRES; r = ZSTD_DCtx_refDDict(s->d, s->dd); if (ZSTD_isError(r)) return r;
+    r = dec_stream(s->d, s->frame, s->fsz, 5000, &out); return fin_d(r, out, 90000, why); }
+static size_t op_own_dprefix(S* s, char* why) { size_t out = 0, r; if (!s->d || !s->obuf) return NULLRES; r = ZSTD_DCtx_refPrefix(s->d, s->obuf, s->osz); if (ZSTD_isError(r)) return r;
+    r = dec_stream(s->d, s->frame, s->fsz, 5000, &out); return fin_d(r, out, 90000, why); }
+/* 40 DDicts of the caller in the multi-DDict hash set of a context: the set is created and grows twice DURING the operation (the DDicts exist
+ * before it), then frames naming dictionaries inserted before / at / after each growth are decoded */
+#define NMD 40
+static void su_own_ddicts(S* s) { ZSTD_CCtx* c = ZSTD_createCCtx(); int i;
+    for (i = 0; i < NMD; i++) { unsigned char* buf = (unsigned char*)malloc(1000); size_t sizes[2] = { 2000, 2000 }; ZDICT_params_t zp; size_t n, r; memset(&zp, 0, sizeof zp); zp.dictID = (unsigned)(1000 + i);
+        n = ZDICT_finalizeDictionary(buf, 1000, DICT + 64 * i, 600, SRC, sizes, 2, zp); if (ZDICT_isError(n) || ZSTD_getDictID_fromDict(buf, n) != (unsigned)(1000 + i)) n = 0;
+        s->mdict[i] = buf; s->mdictSz[i] = n;
+        r = ZSTD_compress_usingDict(c, DST, DSTCAP, SRC + 5000 * i, 20000, buf, n, 3); if (ZSTD_isError(r)) r = 0; s->mframe[i] = (unsigned char*)malloc(r + 1); memcpy(s->mframe[i], DST, r); s->mfsz[i] = r; }
+    ZSTD_freeCCtx(c);
+    own_begin(); for (i = 0; i < NMD; i++) s->dds[i] = s->mdictSz[i] ? ZSTD_createDDict_advanced(s->mdict[i], s->mdictSz[i], ZSTD_dlm_byCopy, ZSTD_dct_auto, CM) : NULL; s->ndds = NMD; own_end();
+    s->d = ZSTD_createDCtx_advanced(CM); s->d2 = ZSTD_createDCtx_advanced(CM); }
+static size_t md_ref_all(ZSTD_DCtx* d, S* s) { int i; size_t r = ZSTD_DCtx_setParameter(d, ZSTD_d_refMultipleDDicts, ZSTD_rmd_refMultipleDDicts); if (ZSTD_isError(r)) return r;
+    for (i = 0; i < NMD; i++) { if (!s->dds[i]) return GENERIC_; r = ZSTD_DCtx_refDDict(d, s->dds[i]); if (ZSTD_isError(r)) return r; } return 0; }
+static size_t md_decode(ZSTD_DCtx* d, S* s, int i, int stream, char* why) { size_t r, out = 0;
+    if (stream) { r = dec_stream(d, s->mframe[i], s->mfsz[i], 3000, &out); if (ZSTD_isError(r)) return r; if (r != 0) out = 0; }
+    else { r = ZSTD_decompressDCtx(d, BACK, BIG, s->mframe[i], s->mfsz[i]); if (ZSTD_isError(r)) return r; out = r; }
+    if (out != 20000 || memcmp(BACK, SRC + 5000 * i, 20000)) { sprintf(why, "multi-ddict-frame-%d:decoded-bytes", i); return GENERIC_; } return 0; }
+static size_t op_own_ddicts(S* s, char* why) { static int const pick[] = { 0, 5, 15, 16, 17, 31, 32, 33, 39 }; size_t r, j; if (!s->d) return NULLRES;
+    r = md_ref_all(s->d, s); if (ZSTD_isError(r)) return r;
+    for (j = 0; j < sizeof pick / sizeof pick[0]; j++) { r = md_decode(s->d, s, pick[j], (int)(j & 1), why); if (ZSTD_isError(r)) return r; }
+    return 0; }
+static size_t probe_ddicts(S* s, char* why) { size_t r = md_ref_all(s->d2, s); if (ZSTD_isError(r)) return r; r = md_decode(s->d2, s, 3, 0, why); if (ZSTD_isError(r)) return r; r = md_decode(s->d2, s, 38, 1, why);
+    ZSTD_DCtx_reset(s->d2, ZSTD_reset_session_and_parameters); return r; }
+
 static size_t alt_small(S* s, char* why) {
     if (s->c) { size_t r; ZSTD_CCtx_reset(s->c, ZSTD_reset_session_and_parameters); r = set(s->c, ZSTD_c_compressionLevel, 1); if (ZSTD_isError(r)) return r; r = ZSTD_compress2(s->c, DST, DSTCAP, SRC, 3000);
         if (ZSTD_isError(r)) return r; if (!rt_ok(SRC, 3000, DST, r, NULL, 0)) { strcpy(why, "small job after failure: round trip"); return (size_t)-ZSTD_error_GENERIC; } }
@@ -195,6 +304,14 @@ static scen_t const SCEN[] = {
     { "d_loaddict", su_dctx_dictframe, op_d_loaddict, rs_dctx }, { "d_ddict", su_dctx_dictframe, op_d_ddict, rs_dctx }, { "d_multiddict", su_dctx_dictframe, op_d_multiddict, rs_dctx },
     { "train_cover", su_none, op_train_cover, su_none }, { "train_fastcover", su_none, op_train_fastcover, su_none }, { "train_legacy", su_none, op_train_legacy, su_none },
     { "opt_fastcover", su_none, op_opt_fastcover, su_none }, { "opt_cover", su_none, op_opt_cover, su_none },
+    /* objects the caller still owns must survive a failed call */
+    { "own_pool_mt", su_own_pool, op_own_pool_mt, rs_cctx, probe_pool }, { "own_pool_mt_public", su_own_pool_public, op_own_pool_mt_public, rs_cctx, probe_pool },
+    { "own_pool_mt_more_workers", su_own_pool_warm, op_own_pool_mt_more_workers, rs_cctx, probe_pool },
+    { "own_cdict_mt", su_own_cdict, op_own_cdict_mt, rs_cctx, probe_cdict }, { "own_cdict_grow", su_own_cdict_warm, op_own_cdict_grow, rs_cctx, probe_cdict },
+    { "own_prefix_mt", su_own_prefix, op_own_prefix_mt, rs_cctx, probe_prefix }, { "own_prefix_grow", su_own_prefix_warm, op_own_prefix_grow, rs_cctx, probe_prefix },
+    { "own_dictref_mt", su_own_prefix, op_own_dictref_mt, rs_cctx, probe_prefix },
+    { "own_ddict", su_own_ddict, op_own_ddict, rs_dctx, probe_ddict }, { "own_dprefix", su_own_dprefix, op_own_dprefix, rs_dctx, probe_ddict },
+    { "own_ddicts_multi_grow", su_own_ddicts, op_own_ddicts, rs_dctx, probe_ddicts },
 };
 static void on_alarm(int sg) { (void)sg; { static const char m[] = "TIMEOUT\n"; if (write(1, m, sizeof m - 1) < 0) {} } _exit(3); }
 
@@ -205,7 +322,7 @@ int main(void) {
     while ((line = zv_getline())) {
         char* op = strtok(line, " "); if (!op) continue;
         if (!strcmp(op, "list")) { for (i = 0; i < sizeof SCEN / sizeof SCEN[0]; i++) printf("%s%s", i ? " " : "", SCEN[i].name); printf("\n"); }
-        else if (!strcmp(op, "run")) { char* nm = strtok(NULL, " "); long k = atol(strtok(NULL, " ")); char* k2s = strtok(NULL, " "); long k2 = k2s ? atol(k2s) : -1; scen_t const* sc = NULL; S s; char why[64]; size_t r, r2 = 0; long allocs; int fired; int j;
+        else if (!strcmp(op, "run")) { char* nm = strtok(NULL, " "); long k = atol(strtok(NULL, " ")); char* k2s = strtok(NULL, " "); long k2 = k2s ? atol(k2s) : -1; scen_t const* sc = NULL; S s; char why[64]; size_t r, r2 = 0; long allocs; int fired; int j; int dead = 0;
             for (i = 0; i < sizeof SCEN / sizeof SCEN[0]; i++) if (!strcmp(SCEN[i].name, nm)) sc = &SCEN[i];
             if (!sc) { printf("bad-scenario\n"); fflush(stdout); continue; }
             alarm(240); memset(&s, 0, sizeof s); why[0] = 0; ledger_reset();
@@ -215,13 +332,26 @@ int main(void) {
             g_counting = 0; allocs = g_calls; fired = g_fired;
             printf("fault=%d allocs=%ld op=%s%s%s ", fired, allocs, r == NULLRES ? "null" : (ZSTD_isError(r) ? zv_errclass(r) : "ok"), why[0] ? ":" : "", why);
             why[0] = 0;
+            /* objects the caller still owns: intact right after the faulted call, and usable through a second context.  Once the library
+             * has handed one of their blocks back the harness stops touching them (anything further would be a use after free): the
+             * event log already holds the theft for the ledger. */
+            if (sc->probe) { if (!owned_intact()) { dead = 1; printf("probe=FAIL:caller-owned-block-freed-by-the-library "); }
+                else { size_t const rp = sc->probe(&s, why); if (ZSTD_isError(rp)) { printf("probe=FAIL:%s:%s ", zv_errclass(rp), why); if (!strncmp(why, "pool-threads", 12)) dead = 1; } else printf("probe=ok "); why[0] = 0; } }
+            if (dead) printf("retry2=FAIL:skipped:caller-owned-object-destroyed ");
+            else {
             /* a context that has just failed must still answer its size query */
             if (s.c) (void)ZSTD_sizeof_CCtx(s.c); if (s.d) (void)ZSTD_sizeof_DCtx(s.d);
             sc->reset(&s);
             {   size_t const ra = alt_small(&s, why); if (ZSTD_isError(ra)) { printf("retry=FAIL:alt:%s%s ", zv_errclass(ra), why); why[0] = 0; } sc->reset(&s); }
             r2 = sc->op(&s, why);
             printf("retry2=%s%s%s ", r2 == NULLRES ? "FAIL:null" : (ZSTD_isError(r2) ? "FAIL:" : "ok"), (r2 != NULLRES && ZSTD_isError(r2)) ? zv_errclass(r2) : "", why[0] ? why : "");
-            ZSTD_freeCCtx(s.c); ZSTD_freeDCtx(s.d); ZSTD_freeCDict(s.cd); ZSTD_freeDDict(s.dd); for (j = 0; j < s.ndds; j++) ZSTD_freeDDict(s.dds[j]); free(s.frame); free(s.frame2);
+            if (sc->probe && !owned_intact()) dead = 1;
+            }
+            ZSTD_freeCCtx(s.c); ZSTD_freeDCtx(s.d); ZSTD_freeCCtx(s.c2); ZSTD_freeDCtx(s.d2);
+            /* the caller releases its own objects (not those the library has already destroyed) */
+            if (!dead) { disown_all(); ZSTD_freeThreadPool(s.pool); zv_fault_free(s.obuf);
+            ZSTD_freeCDict(s.cd); ZSTD_freeDDict(s.dd); for (j = 0; j < s.ndds; j++) ZSTD_freeDDict(s.dds[j]); }
+            free(s.frame); free(s.frame2); free(s.ocopy); for (j = 0; j < 40; j++) { free(s.mdict[j]); free(s.mframe[j]); }
             printf("log=%s\n", g_loglen ? g_log : "-");
             ledger_reset(); alarm(0);
         } else printf("bad-op\n");
